@@ -407,3 +407,45 @@ func VerifC06_cells() {
 		verifC06(1, 3)
 	}
 }
+
+type vfFlaky struct {
+	failAt, calls int
+	got           []byte
+}
+
+type vfFlakyErr struct{}
+
+func (vfFlakyErr) Error() string { return "scripted failure" }
+
+func (w *vfFlaky) Write(p []byte) (int, error) {
+	i := w.calls
+	w.calls++
+	if i == w.failAt {
+		return len(p) / 2, vfFlakyErr{}
+	}
+	w.got = append(w.got, p...)
+	return len(p), nil
+}
+
+// VerifC06_afterfailure: a render that failed (the destination refused a write) leaves nothing behind:
+// the next render - of the same wrapper or of another table - is exactly its own document.
+func VerifC06_afterfailure() {
+	a := New()
+	a.Caption = vfString("cap", 1, vfASCIInoNUL)
+	a.AddHeaders("h")
+	a.AddRowItems("first-table")
+	b := New()
+	b.AddHeaders("k")
+	b.AddRowItems("second-table")
+	refA, errA := a.Render()
+	refB, errB := b.Render()
+	vfAssert(vfAnd(errA == nil, errB == nil), "render-ok")
+	bad := &vfFlaky{failAt: vfInt("k", 0, 40)}
+	err := a.RenderTo(bad)
+	vfAssume(bad.calls > bad.failAt)
+	vfAssert(err != nil, "failure-surfaces-as-error")
+	outB, errB2 := b.Render()
+	vfAssert(vfAnd(errB2 == nil, outB == refB), "other-table-after-failure-is-its-own-document")
+	outA, errA2 := a.Render()
+	vfAssert(vfAnd(errA2 == nil, outA == refA), "same-wrapper-after-failure-is-its-own-document")
+}
